@@ -107,7 +107,9 @@ class Model:
         return None if any(c in self.links for c in ceids) else False     # mixed lists are not judged
 
     def rpt(self, c):
-        if c in self.links and self.enabled.get(c):
+        """What S6F16 carries for the event: its linked reports in link order - whether or not the event is enabled (CEED governs
+        the unsolicited S6F11 only; the statement: "requesting (S6F15) any event always produces ... exactly its linked reports")."""
+        if c in self.links:
             return [(r, list(self.reports[r])) for r in self.links[c]]
         return []
 
